@@ -40,6 +40,12 @@ static const char *menu_rtl[] = {
 	"j", "k", "$", "0", "x", "25l", "12l", "h", "dd", "u", "p", "yyP", "G", "H", "\005", "D", "30|", "5|", "jj", "3x",
 };
 #define NMENU_RTL 20
+/* BUF 5: a split screen (12 rows: two windows of 5 text rows and a status row each).  The window that holds the terminal
+ * cursor is the active one and is the one compared; the other window is redrawn only when it becomes active. */
+static const char *menu_win[] = {
+	"j", "k", "\005", "\031", "\004", "\025", "dd", "onew\033", "p", "G", "H", "L", "\027j", "\027k", "\027x", "\027o", "\027c", "u", "5j", "z\n",
+};
+#define NMENU_WIN 20
 #define AR1 "\330\247\330\250\330\252\330\253\330\254\330\255\330\256\330\257\330\260\330\261\330\262\330\263\330\264\330\265\330\266\330\267"
 #define AR2 "\330\270\330\271\330\272\331\201\331\202\331\203\331\204\331\205\331\206\331\207\331\210\331\211\331\212\330\242\330\243\330\244"
 static struct vt A, B;
@@ -83,20 +89,25 @@ static void snap(int k)
 void harness(void)
 {
 	static char file[2048];
-	int i, n = 0, r;
+	int i, n = 0, r, wbeg = 0;
 	if (BUF == 4)
 		n = sprintf(file, "line 1\n" AR1 AR2 "\n" AR2 "\nline 4\n" AR1 "\nline 6\nline 7\nline 8\n");
-	for (i = 0; i < (BUF == 0 || BUF == 4 ? 0 : BUF == 1 ? 3 : 12); i++)
+	for (i = 0; i < (BUF == 0 || BUF == 4 ? 0 : BUF == 1 ? 3 : BUF == 5 ? 20 : 12); i++)
 		n += sprintf(file + n, BUF == 3 && i == 1 ? "line %d is a long line that does not fit in the window at all\n" : "line %d\n", i + 1);
 	env_mkfile("f", file, n, 5);
 	env_lines = STR(ROWS);
 	env_columns = STR(COLS);
 	env_exinit = BUF == 4 ? "set nohl | set noru | set noshape" : "set nohl | set noru";
+	if (BUF == 5) {		/* split, and start in the upper or in the lower window */
+		vih_str("\027s");
+		if (symx_conc(symx_u8("lower") & 1))
+			vih_str("\027j");
+	}
 	for (i = 0; i < N; i++) {
 		int c = symx_u8("cmd");
-		symx_assume(c < (BUF == 4 ? NMENU_RTL : NMENU));
+		symx_assume(c < (BUF == 4 ? NMENU_RTL : BUF == 5 ? NMENU_WIN : NMENU));
 		c = symx_conc(c);
-		vih_str(BUF == 4 ? menu_rtl[c] : menu[c]);
+		vih_str(BUF == 4 ? menu_rtl[c] : BUF == 5 ? menu_win[c] : menu[c]);
 	}
 	env_mark_at[0] = env_in_len;		/* the ^L key */
 	vih_str("\014");
@@ -129,13 +140,15 @@ void harness(void)
 	}
 #endif
 	symx_assert(!A.bad && !B.bad, "only sequences of the emulated subset are used");
-	for (r = 0; r < nwant && r < ROWS; r++) {
-		symx_assert(!memcmp(A.cell[r], B.cell[r], COLS), "incremental update == full repaint (no stale or missing row)");
-		symx_assert(!memcmp(A.cell[r], want[r], COLS), "every row shows its buffer line, clipped to the window");
+	if (BUF == 5 && nwant < ROWS - 1 && A.r >= ROWS / 2)
+		wbeg = ROWS / 2;		/* the lower window of a split screen */
+	for (r = 0; r < nwant && wbeg + r < ROWS; r++) {
+		symx_assert(!memcmp(A.cell[wbeg + r], B.cell[wbeg + r], COLS), "incremental update == full repaint (no stale or missing row)");
+		symx_assert(!memcmp(A.cell[wbeg + r], want[r], COLS), "every row shows its buffer line, clipped to the window");
 	}
 	symx_assert(A.r == B.r && A.c == B.c, "the terminal cursor is where a full repaint puts it");
 	symx_assert(wrow >= 0 && wrow < nwant, "the window contains the cursor line");
-	symx_assert(A.r == wrow, "the terminal cursor is on the row of the current line");
+	symx_assert(A.r == wbeg + wrow, "the terminal cursor is on the row of the current line");
 	symx_assert(A.c == (wcol < 0 ? 0 : wcol), "the terminal cursor is on the cell of the current character");
 	symx_observe("row", A.r);
 	symx_observe("col", A.c);
